@@ -521,6 +521,16 @@ def leaf_kinds(types, dom, ran, mode='c04'):
             out.append('cembed')
         else:
             out += ['cmod', 'cmodsq', 'realpart']
+        if not c06:
+            # operators implementing only the out-of-place ``_call(self, x)``
+            # (as RealPart / ComplexModulus do): gradient operators
+            out += ['compgrad', 'compgrad']
+            # (Huber cannot be evaluated on array-weighted spaces, C09)
+            if not D.cplx and not any(
+                    (t.get('weighting') or {}).get('type') == 'array'
+                    for t in types.values()
+                    if t['kind'] in ('tensor', 'discr')):
+                out.append('hubergrad')
     elif D.cat == 'leaf' and R.cat == 'leaf':
         if _is_real_of(types, ran, dom):
             out += ['realpart', 'imagpart', 'cmod', 'cmodsq']
@@ -616,6 +626,10 @@ def leaves(draw, types, dom, ran, mode='c04'):
             # cuts where the sign of a zero decides the value)
             names += UFUNCS_C04_EXTRA
         args['name'] = draw(st.sampled_from(names))
+    elif kind == 'compgrad':
+        args['name'] = draw(st.sampled_from(['sin', 'cos', 'square']))
+    elif kind == 'hubergrad':
+        args['gamma'] = draw(st.sampled_from([0.5, 1.0, 0.25]))
     elif kind == 'power':
         args['p'] = draw(st.sampled_from([2, 3, 2, 1]))
     elif kind == 'fpower':
@@ -738,6 +752,11 @@ def build_leaf(env, node):
         if a.get('zero'):
             val = vscale(0.0, val)
         return odl.ConstantOperator(env.element(node['ran'], val), domain=D)
+    if kind == 'compgrad':
+        return (S.L2NormSquared(D) * getattr(odl.ufunc_ops, a['name'])(D)
+                ).gradient
+    if kind == 'hubergrad':
+        return S.Huber(D, a['gamma']).gradient
     if kind == 'cmod':
         return odl.ComplexModulus(D)
     if kind == 'cmodsq':
@@ -946,7 +965,8 @@ def trees(draw, types, dom, ran, depth, mode='c04', pairs=None,
                     'a': draw(trees(types, dom, fkey_ran,
                                     max(depth - 2, 0), mode, pairs)),
                     'v': draw(values(types, ran)),
-                    'how': draw(st.sampled_from(['op', 'op', 'ctor']))}
+                    'how': draw(st.sampled_from(['op', 'op', 'rmatmul',
+                                                 'ctor']))}
         return None
     if rule == 'leaf':
         return draw(leaves(types, dom, ran, mode))
@@ -974,6 +994,23 @@ def trees(draw, types, dom, ran, depth, mode='c04', pairs=None,
         a, b = sub_full(), sub()
         if draw(st.booleans()):
             a, b = b, a
+        if rule == 'sum' and mode == 'c04' and dom == ran and \
+                D.cat == 'leaf' and \
+                draw(st.sampled_from([True, False, False, False])):
+            # a summand that implements only the out-of-place _call, in
+            # either position (OperatorSum then mixes both call styles)
+            kinds = ['compgrad', 'compgrad'] + (
+                [] if D.cplx else ['realpart', 'cmod', 'cmodsq'])
+            k = draw(st.sampled_from(kinds))
+            lf = {'op': 'leaf', 'kind': k, 'dom': dom, 'ran': ran,
+                  'fk': 'op', 'args': {}}
+            if k == 'compgrad':
+                lf['args']['name'] = draw(st.sampled_from(['sin', 'cos',
+                                                           'square']))
+            if draw(st.sampled_from(['left', 'right'])) == 'left':
+                a = lf
+            else:
+                b = lf
         node['a'], node['b'] = a, b
         both = a['fk'] == 'func' and b['fk'] == 'func'
         if rule == 'sum':
@@ -998,8 +1035,8 @@ def trees(draw, types, dom, ran, depth, mode='c04', pairs=None,
     if rule == 'lscal':
         node['a'] = flvec_child() or sub_full()
         node['s'] = draw(scalars(tinfo(types, fkey_ran).cplx))
-        node['how'] = draw(st.sampled_from(['op', 'op', 'op', 'ctor']))
-        node['fk'] = node['a']['fk'] if node['how'] == 'op' else 'op'
+        node['how'] = draw(st.sampled_from(['op', 'op', 'rmatmul', 'ctor']))
+        node['fk'] = node['a']['fk'] if node['how'] != 'ctor' else 'op'
         return node
     if rule in ('rscal', 'div'):
         node['a'] = sub_full()
@@ -1019,11 +1056,12 @@ def trees(draw, types, dom, ran, depth, mode='c04', pairs=None,
                                  classes=classes))
         hows = ['op', 'op', 'op']
         if rule == 'rscal':
-            hows.append('ctor')
+            hows += ['matmul', 'ctor']
             if dom_space:
                 hows.append('ctor_tmp')
         node['how'] = draw(st.sampled_from(hows))
-        node['fk'] = node['a']['fk'] if node['how'] == 'op' else 'op'
+        node['fk'] = node['a']['fk'] if node['how'] in ('op', 'matmul') \
+            else 'op'
         return node
     if rule == 'comp':
         mid = draw(st.sampled_from(mids))
@@ -1047,18 +1085,18 @@ def trees(draw, types, dom, ran, depth, mode='c04', pairs=None,
     if rule == 'rvec':
         node['a'] = sub_full()
         node['v'] = draw(values(types, dom))
-        node['how'] = draw(st.sampled_from(['op', 'op', 'ctor']))
-        node['fk'] = node['a']['fk'] if node['how'] == 'op' else 'op'
+        node['how'] = draw(st.sampled_from(['op', 'op', 'matmul', 'ctor']))
+        node['fk'] = node['a']['fk'] if node['how'] != 'ctor' else 'op'
         return node
     if rule == 'lvec':
         node['a'] = sub_full()
         node['v'] = draw(values(types, ran))
-        node['how'] = draw(st.sampled_from(['op', 'op', 'ctor']))
+        node['how'] = draw(st.sampled_from(['op', 'op', 'rmatmul', 'ctor']))
         return node
     if rule == 'flvec':
         node['a'] = sub_full(dom, fkey_ran)
         node['v'] = draw(values(types, ran))
-        node['how'] = draw(st.sampled_from(['op', 'op', 'ctor']))
+        node['how'] = draw(st.sampled_from(['op', 'op', 'rmatmul', 'ctor']))
         return node
     if rule == 'addvec':
         node['a'] = flvec_child() or sub_full()
@@ -1183,6 +1221,11 @@ _OVERLOAD = {
     ('div', 'op'): '__truediv__(scalar)',
     ('comp', 'mul'): '__mul__(Operator)',
     ('comp', 'matmul'): '__matmul__(Operator)',
+    ('lscal', 'rmatmul'): '__rmatmul__(scalar)',
+    ('rscal', 'matmul'): '__matmul__(scalar)',
+    ('rvec', 'matmul'): '__matmul__(vector)',
+    ('lvec', 'rmatmul'): '__rmatmul__(vector)',
+    ('flvec', 'rmatmul'): '__rmatmul__(vector)',
     ('rvec', 'op'): '__mul__(vector)', ('lvec', 'op'): '__rmul__(vector)',
     ('flvec', 'op'): '__rmul__(vector)',
     ('addvec', 'A+v'): '__add__(vector)', ('addvec', 'v+A'): '__radd__(vector)',
@@ -1316,14 +1359,20 @@ def _build_node(env, b):
     elif op == 'lscal':
         if isinstance(A, OperatorLeftScalarMult):
             b.shortcut = 'LeftScalar(LeftScalar)'
-        b.obj = b.scal * A if how == 'op' else \
-            OperatorLeftScalarMult(A, b.scal)
+        if how == 'op':
+            b.obj = b.scal * A
+        elif how == 'rmatmul':
+            b.obj = b.scal @ A
+        else:
+            b.obj = OperatorLeftScalarMult(A, b.scal)
     elif op == 'rscal':
         if isinstance(A, OperatorRightScalarMult):
-            b.shortcut = ('RightScalar.__mul__' if how == 'op'
+            b.shortcut = ('RightScalar.__mul__' if how in ('op', 'matmul')
                           else 'RightScalar(RightScalar)')
         if how == 'op':
             b.obj = A * b.scal
+        elif how == 'matmul':
+            b.obj = A @ b.scal
         elif how == 'ctor':
             b.obj = OperatorRightScalarMult(A, b.scal)
         else:
@@ -1348,13 +1397,16 @@ def _build_node(env, b):
         if isinstance(A, OperatorRightScalarMult):
             b.shortcut = 'RightScalar*vector'
         v = vec(dom)
-        b.obj = A * v if how == 'op' else OperatorRightVectorMult(A, v)
+        b.obj = (A * v if how == 'op' else A @ v if how == 'matmul'
+                 else OperatorRightVectorMult(A, v))
     elif op == 'lvec':
         v = vec(ran)
-        b.obj = v * A if how == 'op' else OperatorLeftVectorMult(A, v)
+        b.obj = (v * A if how == 'op' else v @ A if how == 'rmatmul'
+                 else OperatorLeftVectorMult(A, v))
     elif op == 'flvec':
         v = vec(ran)
-        b.obj = v * A if how == 'op' else FunctionalLeftVectorMult(A, v)
+        b.obj = (v * A if how == 'op' else v @ A if how == 'rmatmul'
+                 else FunctionalLeftVectorMult(A, v))
     elif op == 'addvec':
         v = vec(ran)
         b.obj = {'A+v': lambda: A + v, 'v+A': lambda: v + A,
